@@ -186,6 +186,11 @@ class WebSession(object):
             else:
                 request = self._request_factory(url)
 
+            if not request.url_info.hostname or not request.url_info.port:
+                # Not a URL of a host that can be connected to
+                # (mailto:, javascript:, data: and the like).
+                raise ProtocolError('Redirect location is not fetchable.')
+
             request.prepare_for_send()
         except ValueError as error:
             raise ProtocolError('Invalid redirect location.') from error
